@@ -1,5 +1,6 @@
 import RLV.Model.Menu
 import RLV.Lemmas.MenuCycle
+import RLV.Lemmas.MenuCycleBack
 /-! Menu completion over SEVERAL groups (tags): `Menu.select m 1 0` is one `menu-complete` on the menu
 model the differential compares with the real engine. All groups plain (not aliased) and non-empty. -/
 namespace RLV.Menu
@@ -410,5 +411,304 @@ theorem presses_gpos (ns cs : List Nat) : ∀ (k : Nat) (m : Menu) (i : Nat), MI
     · rw [hg', hg, Int.emod_add_emod]
       congr 1
       omega
+
+/-! ### Backwards (`menu-complete-backward`) -/
+
+theorem move_back_in_group (s : Sel) (n c : Nat) (g : Grid s n c) (hv : Valid s) :
+    (∃ s', move s (-1) 0 = .ok (s', false, false) ∧ Valid s' ∧ s'.rows = s.rows ∧ s'.R = s.R ∧
+        idx s' c = idx s c - 1 ∧ 0 < idx s c) ∨
+    (∃ s', move s (-1) 0 = .ok (s', true, false) ∧ idx s c = 0) := by
+  obtain ⟨hx, hy, hyR, hcell⟩ := hv
+  obtain ⟨y, hyy⟩ : ∃ y : Nat, s.y = y := ⟨s.y.toNat, by omega⟩
+  have hyn : y < s.R := by omega
+  have hty : s.y.toNat = y := by omega
+  have hprev : 0 < s.y → 0 < s.rows (s.y - 1).toNat ∧
+      (s.rows (s.y - 1).toNat : Int) - 1 ≤ (s.rows s.y.toNat : Int) - 1 + (s.rows (s.y - 1).toNat : Int) := by
+    intro h
+    have : (s.y - 1).toNat = y - 1 := by omega
+    rw [this]
+    have hp := rows_pos g (y - 1) (by omega)
+    exact ⟨hp, by omega⟩
+  have hm := move_bwd s hx hy hyR hcell hprev
+  rw [hm]
+  have hynn : 0 ≤ s.y * (c : Int) := Int.mul_nonneg hy (by omega)
+  by_cases hx0 : 0 < s.x
+  · left
+    refine ⟨{ s with x := s.x - 1 }, by simp [hx0], ?_, rfl, rfl, ?_, ?_⟩
+    · exact ⟨by show 0 ≤ s.x - 1; omega, hy, hyR, by show s.x - 1 < s.rows s.y.toNat; omega⟩
+    · unfold idx; simp only; omega
+    · unfold idx; omega
+  · have hx00 : s.x = 0 := by omega
+    by_cases hy0 : 0 < s.y
+    · left
+      have hym : (s.y - 1).toNat = y - 1 := by omega
+      have hrow : s.rows (y - 1) = c := g.hrows (y - 1) (by omega)
+      refine ⟨{ s with y := s.y - 1, x := (s.rows (s.y - 1).toNat : Int) - 1 }, by simp [hx0, hy0], ?_, rfl, rfl, ?_, ?_⟩
+      · refine ⟨?_, by show 0 ≤ s.y - 1; omega, by show s.y - 1 < s.R; omega, ?_⟩
+        · show 0 ≤ (s.rows (s.y - 1).toNat : Int) - 1
+          rw [hym, hrow]; have := g.hc; omega
+        · show (s.rows (s.y - 1).toNat : Int) - 1 < s.rows (s.y - 1).toNat
+          omega
+      · unfold idx
+        simp only
+        rw [hym, hrow, hx00, Int.sub_mul]
+        omega
+      · unfold idx
+        rw [hx00, hyy]
+        have : (1 : Int) * c ≤ (y : Int) * c := Int.mul_le_mul_of_nonneg_right (by omega) (by omega)
+        have := g.hc
+        omega
+    · right
+      have hy00 : s.y = 0 := by omega
+      refine ⟨{ s with x := 0, y := 0 }, by simp [hx0, hy0], ?_⟩
+      unfold idx; rw [hx00, hy00]; simp
+
+theorem moveSelector_plain' (g : Grp) (dx dy : Int) (hp : g.aliased = false) :
+    moveSelector g dx dy = (do
+      let r ← Menu2.move (toSel g) dx dy
+      pure ({ g with posX := r.1.x, posY := r.1.y }, r.2.1, r.2.2)) := by
+  unfold moveSelector
+  simp [hp]
+
+/-- `select` backwards when the move stays inside the current group -/
+theorem select_back_notdone (m : Menu) (ns cs : List Nat) (i : Nat) (h : MInv m ns cs i) (s' : Sel)
+    (hmv : Menu2.move (toSel (m[i]'h.hi)) (-1) 0 = .ok (s', false, false)) :
+    select m (-1) 0 = (do
+      let v ← selected { m[i]'h.hi with posX := s'.x, posY := s'.y }
+      pure (m.set i { m[i]'h.hi with posX := s'.x, posY := s'.y }, some v)) := by
+  have hcur := curIdx_of h.hi h.cur
+  have hal := (h.shape i h.hi).plain
+  have hne := rows_nonempty h
+  unfold select
+  simp only [currentGroup, hcur, bind, Except.bind, pure, Except.pure]
+  rw [getD_of_lt m i _ h.hi]
+  simp only [hne, Bool.false_eq_true, if_false]
+  have e : (if (m[i]'h.hi).aliased = true then ((0 : Int), (-1 : Int)) else (-1, 0)) = (-1, 0) := by simp [hal]
+  rw [e]
+  simp only
+  rw [moveSelector_plain' _ _ _ hal]
+  simp [bind, Except.bind, pure, Except.pure, hmv]
+
+/-- `select` backwards from the first candidate of the current group: the last cell of the previous group -/
+theorem select_back_done (m : Menu) (ns cs : List Nat) (i : Nat) (h : MInv m ns cs i) (s' : Sel)
+    (hmv : Menu2.move (toSel (m[i]'h.hi)) (-1) 0 = .ok (s', true, false)) :
+    select m (-1) 0 =
+      (match curIdx (cycle (m.set i { m[i]'h.hi with posX := s'.x, posY := s'.y }) false) with
+       | none => .ok (cycle (m.set i { m[i]'h.hi with posX := s'.x, posY := s'.y }) false, none)
+       | some j => do
+          let gj ← lastCell ((cycle (m.set i { m[i]'h.hi with posX := s'.x, posY := s'.y }) false).getD j (m[i]'h.hi))
+          let v ← selected gj
+          pure ((cycle (m.set i { m[i]'h.hi with posX := s'.x, posY := s'.y }) false).set j gj, some v)) := by
+  have hcur := curIdx_of h.hi h.cur
+  have hal := (h.shape i h.hi).plain
+  have hne := rows_nonempty h
+  unfold select
+  simp only [currentGroup, hcur, bind, Except.bind, pure, Except.pure]
+  rw [getD_of_lt m i _ h.hi]
+  simp only [hne, Bool.false_eq_true, if_false]
+  have e : (if (m[i]'h.hi).aliased = true then ((0 : Int), (-1 : Int)) else (-1, 0)) = (-1, 0) := by simp [hal]
+  rw [e]
+  simp only
+  rw [moveSelector_plain' _ _ _ hal]
+  simp only [bind, Except.bind, pure, Except.pure, hmv, Bool.not_true, Bool.false_eq_true, if_false, if_true]
+  first | rfl | (split <;> rfl)
+
+theorem lastCell_plain (g : Grp) (hp : g.aliased = false) (hne : 0 < g.rows.length) :
+    lastCell g = .ok { g with posY := (g.rows.length : Int) - 1,
+                              posX := ((g.rows.getD (g.rows.length - 1) []).length : Int) - 1 } := by
+  unfold lastCell
+  simp only [hp, Bool.false_eq_true, if_false, bind, Except.bind, pure, Except.pure]
+  unfold rowLen
+  have c1 : ¬ ((g.rows.length : Int) - 1 < 0 ∨ (g.rows.length : Int) - 1 ≥ g.rows.length) := by omega
+  have e : ((g.rows.length : Int) - 1).toNat = g.rows.length - 1 := by omega
+  simp [c1, e, pure, Except.pure]
+
+/-- one `menu-complete-backward` on a menu of plain groups: the previous candidate of the current group,
+or — from its first candidate — the last candidate of the previous group (the last group before the
+first one) -/
+theorem select_back_step (m : Menu) (ns cs : List Nat) (i : Nat) (h : MInv m ns cs i) :
+    ∃ m' v i', select m (-1) 0 = .ok (m', some v) ∧ MInv m' ns cs i' ∧ m'.length = m.length ∧
+      ((i' = i ∧ pos m' i (cs.getD i 0) = pos m i (cs.getD i 0) - 1 ∧ 0 < pos m i (cs.getD i 0)) ∨
+       (i' = (if i = 0 then m.length - 1 else i - 1) ∧ pos m i (cs.getD i 0) = 0 ∧
+          pos m' i' (cs.getD i' 0) = (ns.getD i' 0 : Int) - 1)) := by
+  have hg := h.shape i h.hi
+  have hi := h.hi
+  have hpos : pos m i (cs.getD i 0) = idx (toSel (m[i]'h.hi)) (cs.getD i 0) := by
+    unfold pos; rw [getD_of_lt m i _ h.hi]
+  rcases move_back_in_group (toSel (m[i]'h.hi)) _ _ hg.grid h.valid with ⟨s', hmv, hv', hrows, hR, hidx, hlt⟩ | ⟨s', hmv, hend⟩
+  · have hsel := select_back_notdone m ns cs i h s' hmv
+    have hv'' : Valid (toSel { m[i]'h.hi with posX := s'.x, posY := s'.y }) := by
+      obtain ⟨a, b, c, d⟩ := hv'
+      refine ⟨a, b, ?_, ?_⟩
+      · show s'.y < ((toSel (m[i]'h.hi)).R : Int); rw [← hR]; exact c
+      · show s'.x < ((toSel (m[i]'h.hi)).rows s'.y.toNat : Int); rw [← hrows]; exact d
+    rw [selected_valid _ hv''] at hsel
+    simp only [bind, Except.bind, pure, Except.pure] at hsel
+    refine ⟨_, _, i, hsel, ?_, by simp, Or.inl ⟨rfl, ?_, by rw [hpos]; exact hlt⟩⟩
+    · refine ⟨by simp; exact h.hi, ?_, ?_, ?_⟩
+      · intro j hj
+        have hj' : j < m.length := by simpa using hj
+        rw [List.getElem_set]
+        split
+        · rename_i hij; subst hij; exact gok_pos hg _ _ _
+        · exact h.shape j hj'
+      · intro j hj
+        have hj' : j < m.length := by simpa using hj
+        rw [List.getElem_set]
+        split
+        · rename_i hij; subst hij; exact h.cur i h.hi
+        · exact h.cur j hj'
+      · simp only [List.getElem_set_self]
+        exact hv''
+    · unfold pos
+      rw [getD_of_lt _ i _ (by simp; exact h.hi), getD_of_lt m i _ h.hi]
+      simp only [List.getElem_set_self]
+      have : idx (toSel { m[i]'h.hi with posX := s'.x, posY := s'.y }) (cs.getD i 0) = idx s' (cs.getD i 0) := rfl
+      rw [this, hidx]
+  · have hsel := select_back_done m ns cs i h s' hmv
+    generalize hm1 : m.set i { m[i]'h.hi with posX := s'.x, posY := s'.y } = m1 at hsel
+    have hlen1 : m1.length = m.length := by rw [← hm1]; simp
+    have hget1 : ∀ j (hj : j < m1.length), m1[j] = if i = j then { m[i]'h.hi with posX := s'.x, posY := s'.y } else m[j]'(by omega) := by
+      intro j hj; subst hm1; rw [List.getElem_set]
+    have hcur1 : ∀ j (hj : j < m1.length), m1[j].isCurrent = decide (j = i) := by
+      intro j hj
+      rw [hget1 j hj]
+      split
+      · rename_i hij; subst hij; exact h.cur i h.hi
+      · exact h.cur j (by omega)
+    have hci1 := curIdx_of (by omega : i < m1.length) hcur1
+    obtain ⟨j, hj⟩ : ∃ j, j = (if i = 0 then m.length - 1 else i - 1) := ⟨_, rfl⟩
+    have hjlt : j < m.length := by rw [hj]; split <;> omega
+    have hcyc : cycle m1 false = setCur m1 j := by
+      unfold cycle; rw [hci1]; simp only [Bool.false_eq_true, if_false, hlen1, hj]
+    rw [hcyc] at hsel
+    have hlen2 : (setCur m1 j).length = m.length := by unfold setCur; simp [hlen1]
+    have hget2 : ∀ k (hk : k < (setCur m1 j).length),
+        (setCur m1 j)[k] = { m1[k]'(by omega) with isCurrent := k == j } := by
+      intro k hk; simp [setCur]
+    have hcur2 : ∀ k (hk : k < (setCur m1 j).length), (setCur m1 j)[k].isCurrent = decide (k = j) := by
+      intro k hk; rw [hget2 k hk]
+      show (k == j) = decide (k = j)
+      by_cases hkj : k = j <;> simp [hkj]
+    have hci2 := curIdx_of (by omega : j < (setCur m1 j).length) hcur2
+    rw [hci2] at hsel
+    simp only at hsel
+    rw [getD_of_lt _ j _ (by omega)] at hsel
+    have hshape1 : ∀ k (hk : k < m1.length), GOK m1[k] (ns.getD k 0) (cs.getD k 0) := by
+      intro k hk
+      rw [hget1 k hk]
+      split
+      · rename_i hik; subst hik; exact gok_pos hg _ _ _
+      · exact h.shape k (by omega)
+    have hshape2 : ∀ k (hk : k < (setCur m1 j).length), GOK (setCur m1 j)[k] (ns.getD k 0) (cs.getD k 0) := by
+      intro k hk
+      rw [hget2 k hk]
+      have := hshape1 k (by omega)
+      exact ⟨this.plain, this.grid⟩
+    have hgj := hshape2 j (by omega)
+    have hRj : 0 < ((setCur m1 j)[j]'(by omega)).rows.length := hgj.grid.hR
+    rw [lastCell_plain _ hgj.plain hRj] at hsel
+    simp only [bind, Except.bind, pure, Except.pure] at hsel
+    -- the last cell of group j
+    generalize hgl : ({ (setCur m1 j)[j]'(by omega) with
+        posY := (((setCur m1 j)[j]'(by omega)).rows.length : Int) - 1,
+        posX := ((((setCur m1 j)[j]'(by omega)).rows.getD (((setCur m1 j)[j]'(by omega)).rows.length - 1) []).length : Int) - 1 } : Grp) = gl at hsel
+    have hgl_sel : toSel gl = { toSel ((setCur m1 j)[j]'(by omega)) with
+        y := ((toSel ((setCur m1 j)[j]'(by omega))).R : Int) - 1,
+        x := ((toSel ((setCur m1 j)[j]'(by omega))).rows ((toSel ((setCur m1 j)[j]'(by omega))).R - 1) : Int) - 1 } := by
+      rw [← hgl]; rfl
+    have hgrid := hgj.grid
+    generalize toSel ((setCur m1 j)[j]'(by omega)) = sj at hgl_sel hgrid
+    have hvl : Valid (toSel gl) := by
+      rw [hgl_sel]
+      have h1 := hgrid.hR; have h2 := hgrid.hlast1
+      refine ⟨by show 0 ≤ (sj.rows (sj.R - 1) : Int) - 1; omega, by show 0 ≤ (sj.R : Int) - 1; omega,
+        by show (sj.R : Int) - 1 < sj.R; omega, ?_⟩
+      show (sj.rows (sj.R - 1) : Int) - 1 < sj.rows ((sj.R : Int) - 1).toNat
+      have : ((sj.R : Int) - 1).toNat = sj.R - 1 := by omega
+      rw [this]; omega
+    have hidxl : idx (toSel gl) (cs.getD j 0) = (ns.getD j 0 : Int) - 1 := by
+      rw [hgl_sel]
+      unfold idx
+      simp only
+      have h1 := hgrid.hR
+      have hl : ((sj.R - 1 : Nat) : Int) * (cs.getD j 0 : Int) + (sj.rows (sj.R - 1) : Int) = (ns.getD j 0 : Int) := by
+        have := hgrid.hlast
+        exact_mod_cast (by omega : (sj.R - 1) * cs.getD j 0 + sj.rows (sj.R - 1) = ns.getD j 0)
+      have : ((sj.R : Int) - 1) = ((sj.R - 1 : Nat) : Int) := by omega
+      rw [this]
+      omega
+    have hgok_l : GOK gl (ns.getD j 0) (cs.getD j 0) := by
+      rw [← hgl]; exact gok_pos hgj _ _ _
+    have hcur_l : gl.isCurrent = decide (j = j) := by
+      rw [← hgl]; show ((setCur m1 j)[j]'(by omega)).isCurrent = _; exact hcur2 j (by omega)
+    rw [selected_valid _ hvl] at hsel
+    simp only [bind, Except.bind, pure, Except.pure] at hsel
+    refine ⟨_, _, j, hsel, ?_, by simp [hlen2], Or.inr ⟨hj, by rw [hpos]; exact hend, ?_⟩⟩
+    · refine ⟨by simp [hlen2]; exact hjlt, ?_, ?_, ?_⟩
+      · intro k hk
+        have hk' : k < (setCur m1 j).length := by simpa using hk
+        rw [List.getElem_set]
+        split
+        · rename_i hjk; subst hjk; exact hgok_l
+        · exact hshape2 k hk'
+      · intro k hk
+        have hk' : k < (setCur m1 j).length := by simpa using hk
+        rw [List.getElem_set]
+        split
+        · rename_i hjk; subst hjk; exact hcur_l
+        · exact hcur2 k hk'
+      · simp only [List.getElem_set_self]
+        exact hvl
+    · unfold pos
+      rw [getD_of_lt _ j _ (by simp [hlen2]; exact hjlt)]
+      simp only [List.getElem_set_self]
+      exact hidxl
+
+theorem select_back_gpos (m : Menu) (ns cs : List Nat) (i : Nat) (h : MInv m ns cs i) (hlen : ns.length = m.length) :
+    ∃ m' v i', select m (-1) 0 = .ok (m', some v) ∧ MInv m' ns cs i' ∧ m'.length = m.length ∧
+      gpos m' ns cs i' = (gpos m ns cs i - 1) % (ns.sum : Int) := by
+  obtain ⟨m', v, i', hsel, hinv, hl, hcase⟩ := select_back_step m ns cs i h
+  obtain ⟨_, _, _, _, _, _, _, hg0, hgN⟩ := select_gpos m ns cs i h hlen
+  have hi := h.hi
+  refine ⟨m', v, i', hsel, hinv, hl, ?_⟩
+  rcases hcase with ⟨rfl, hp, hlt⟩ | ⟨hi', hend, hpl⟩
+  · have e : gpos m' ns cs i' = gpos m ns cs i' - 1 := by unfold gpos; rw [hp]; omega
+    rw [e, Int.emod_eq_of_lt (by unfold gpos; omega) (by omega)]
+  · by_cases h0 : i = 0
+    · rw [if_pos h0] at hi'
+      subst hi' h0
+      have hs := sum_take_succ ns (m.length - 1) (by omega)
+      have hall : (ns.take (m.length - 1 + 1)).sum = ns.sum := sum_take_all ns _ (by omega)
+      have hN : ((ns.take (m.length - 1)).sum : Int) + (ns.getD (m.length - 1) 0 : Int) = (ns.sum : Int) := by
+        have : ((ns.take (m.length - 1 + 1)).sum : Int) = ((ns.take (m.length - 1)).sum : Int) + (ns.getD (m.length - 1) 0 : Int) := by
+          exact_mod_cast hs
+        have : ((ns.take (m.length - 1 + 1)).sum : Int) = (ns.sum : Int) := by exact_mod_cast hall
+        omega
+      have hg : gpos m ns cs 0 = 0 := by unfold gpos; rw [hend]; simp
+      have e : gpos m' ns cs (m.length - 1) = (ns.sum : Int) - 1 := by unfold gpos; rw [hpl]; omega
+      rw [e, hg]
+      have hNpos : 0 < (ns.sum : Int) := by omega
+      have : ((0 : Int) - 1) % (ns.sum : Int) = ((0 : Int) - 1 + ns.sum) % (ns.sum : Int) := by
+        rw [Int.add_emod_right]
+      rw [this, Int.emod_eq_of_lt (by omega) (by omega)]
+      omega
+    · rw [if_neg h0] at hi'
+      subst hi'
+      have hs := sum_take_succ ns (i - 1) (by omega)
+      have hii : i - 1 + 1 = i := by omega
+      rw [hii] at hs
+      have hn1 := gok_n_pos (h.shape (i - 1) (by omega))
+      have e : gpos m' ns cs (i - 1) = gpos m ns cs i - 1 := by
+        unfold gpos
+        rw [hpl, hend]
+        have : ((ns.take i).sum : Int) = ((ns.take (i - 1)).sum : Int) + (ns.getD (i - 1) 0 : Int) := by exact_mod_cast hs
+        omega
+      have hge : 0 ≤ gpos m ns cs i - 1 := by
+        unfold gpos
+        rw [hend]
+        have : ((ns.take i).sum : Int) = ((ns.take (i - 1)).sum : Int) + (ns.getD (i - 1) 0 : Int) := by exact_mod_cast hs
+        omega
+      rw [e, Int.emod_eq_of_lt hge (by omega)]
 
 end RLV.Menu
